@@ -229,3 +229,46 @@ package mat
 //@   property C20
 //@   ensures (err == nil) == (rows != 0 && cols != 0 && ring != nil)
 //@   ensures err == nil ==> result != nil && result.rows == rows && result.cols == cols && result.baseStructure == ring
+
+// ---------------------------------------------------------------- lifting and the right action (C05, C20)
+// Lift: same shape, entry t is the base point multiplied by entry t of the scalar matrix, for EVERY entry.
+//@ func Lift
+//@   property C05, C20
+//@   nopanic
+//@   requires m != nil ==> wfM(m)
+//@   ensures m == nil ==> err != nil
+//@   ensures err == nil ==> result != nil && result.m == m.m && result.n == m.n && len(result.v) == m.m * m.n
+//@   ensures err == nil ==> forall t int :: 0 <= t && t < m.m * m.n ==> result.v[t] == basePoint.ScalarOp(m.v[t])
+//@   loop range(m.data())
+//@     invariant len(elements) == m.m * m.n
+//@     invariant forall t int :: 0 <= t && t < i ==> elements[t] == basePoint.ScalarOp(m.v[t])
+
+// ract(X, A, p, c, i, j, k) = sum_{t<k} [A[t*c+j]] X[i*p+t]  -- partial sum of entry (i,j) of the right action of the
+// p x c scalar matrix A on the module-valued matrix X (p columns), accumulated in the order the code accumulates it.
+//@ ghost func ract(X []V, A []V, p int, c int, i int, j int, k int) V
+//@ theory matract
+//@ axiom Ract0: forall X []V, A []V, p Int, c Int, i Int, j Int :: ract(X, A, p, c, i, j, 0) == gzero()
+//@ axiom RactS: forall X []V, A []V, p Int, c Int, i Int, j Int, k Int :: k > 0 ==> ract(X, A, p, c, i, j, k) == gadd(ract(X, A, p, c, i, j, k-1), gsmul(A[(k-1)*c + j], X[i*p + (k-1)]))
+//@ end
+
+//@ func RightAction
+//@   property C05, C20
+//@   purefn
+//@   bind E group, FiniteModule groupS
+//@   uses matract
+//@   nopanic
+//@   requires actor != nil ==> wfM(actor)
+//@   requires x != nil ==> wfMV(x) && x.Module().baseStructure != nil
+//@   ensures (actor == nil || x == nil) ==> err != nil
+//@   ensures actor != nil && x != nil ==> ((err == nil) == (x.n == actor.m))
+//@   ensures err == nil ==> result != nil && result.m == x.m && result.n == actor.n && len(result.v) == x.m * actor.n
+//@   ensures err == nil ==> forall i, j int :: 0 <= i && i < x.m && 0 <= j && j < actor.n ==> result.v[i*actor.n + j] == ract(x.v, actor.v, x.n, actor.n, i, j, x.n)
+//@   loop range(x.rows())
+//@     invariant len(elements) == x.m * actor.n
+//@     invariant forall r, c int :: 0 <= r && r < i && 0 <= c && c < actor.n ==> elements[r*actor.n + c] == ract(x.v, actor.v, x.n, actor.n, r, c, x.n)
+//@   loop range(actor.n)
+//@     invariant len(elements) == x.m * actor.n
+//@     invariant forall r, c int :: 0 <= r && r < i && 0 <= c && c < actor.n ==> elements[r*actor.n + c] == ract(x.v, actor.v, x.n, actor.n, r, c, x.n)
+//@     invariant forall c int :: 0 <= c && c < j ==> elements[i*actor.n + c] == ract(x.v, actor.v, x.n, actor.n, i, c, x.n)
+//@   loop range(x.cols())
+//@     invariant sum == ract(x.v, actor.v, x.n, actor.n, i, j, k)
